@@ -2,7 +2,7 @@
    Only statements; every proof is `exact <lemma>`; examples by computation. *)
 From Coq Require Import List ZArith QArith Qcanon Bool Arith.
 From Dimod Require Import Base.Util Model.Poly Model.HPoly Model.Reduce
-  Proofs.ReduceFacts Proofs.PenaltyFacts Proofs.MakeQuadratic Proofs.NormaliseFacts Proofs.C15EndToEnd Proofs.ReduceLoop.
+  Proofs.ReduceFacts Proofs.PenaltyFacts Proofs.MakeQuadratic Proofs.NormaliseFacts Proofs.C15EndToEnd Proofs.ReduceLoop Proofs.BaseFacts.
 Import ListNotations.
 Open Scope Qc_scope.
 
@@ -220,6 +220,30 @@ Example C15_ex_loop :
   let poly : hpoly := [([0;1;2;3]%nat, 1); ([0;1;2]%nat, - two); ([3%nat], 1)] in
   snd (reduce_loop (excess poly) first_pair (fresh_above poly) poly) = [(0, 1, 4)%nat; (4, 2, 5)%nat].
 Proof. vm_compute. reflexivity. Qed.
+
+(* make_quadratic(..., bqm=base) / make_quadratic_cqm(..., cqm=base): the supplied model, converted to the
+   requested vartype, is ADDED to what is built for the polynomial; the conversion keeps the energy at
+   corresponding assignments (s = 2x - 1) *)
+Theorem C15_convert_base_energy :
+  forall vt bvt p (s : sample),
+    energy (convert_base vt bvt p) s =
+    energy p (match bvt, vt with
+              | SPIN, BINARY => fun w => two * s w + - (1)
+              | BINARY, SPIN => fun w => half * s w + half
+              | _, _ => s
+              end).
+Proof. exact convert_base_energy. Qed.
+Print Assumptions C15_convert_base_energy.
+
+Theorem C15_with_base_energy :
+  forall vt base q (s : sample),
+    energy (with_base vt base q) s =
+    match base with
+    | None => energy q s
+    | Some (bvt, p) => energy (convert_base vt bvt p) s + energy q s
+    end.
+Proof. exact with_base_energy. Qed.
+Print Assumptions C15_with_base_energy.
 
 (* the hypotheses are satisfiable on a non-trivial instance: x0 x1 x2 x3 - 2 x0 x1 x2 + x3 *)
 Example C15_ex_reduce :
